@@ -48,10 +48,10 @@ impl OutputFormat for Renegade {
             while pos.x < line_length {
                 let ch = buf.get_char(pos);
                 if ch.attribute != last_attr {
-                    let last_fore = last_attr.get_foreground();
+                    let last_fore = last_attr.get_shown_foreground();
                     let last_back = last_attr.get_background();
-                    if ch.attribute.get_foreground() != last_fore {
-                        result.extend(format!("|{:02}", ch.attribute.get_foreground()).as_bytes());
+                    if ch.attribute.get_shown_foreground() != last_fore {
+                        result.extend(format!("|{:02}", ch.attribute.get_shown_foreground()).as_bytes());
                     }
                     if ch.attribute.get_background() != last_back {
                         result.extend(format!("|{:02}", 16 + ch.attribute.get_background()).as_bytes());
